@@ -811,6 +811,13 @@ int32_t psDynBufAppendTlsVector(psDynBuf_t *db,
         return PS_ARG_FAIL;
     }
 
+    if (data == NULL && len > 0)
+    {
+        /* A failed allocation or detach passed on by the caller */
+        db->err = 1;
+        return PS_FAIL;
+    }
+
     if ((target = psDynBufAppendSize(db, len + extralen)) == NULL)
     {
         return PS_FAIL;
